@@ -1,13 +1,23 @@
 """C05 - storage and interchange are lossless."""
 LEVEL = "other"
-EXPLANATION = ("Proved: the kastore container read path (descriptor layout inside the file without 64-bit wrap, exactly one "
+EXPLANATION = ("Proved: the judge of every round trip - tsk_<T>_table_equals for all eight tables, "
+               "tsk_reference_sequence_equals and tsk_table_collection_equals return true exactly when the two objects "
+               "are equal as lists of rows (every fixed column, every ragged column's boundaries and bytes, metadata "
+               "schemas, top-level fields), each TSK_CMP_IGNORE_* option removing exactly the columns it names, and "
+               "assign nothing. Proved: the kastore container read path (descriptor layout inside the file without 64-bit wrap, exactly one "
                "stored object consumed, EOF distinguished from malformed input), see C10. Bounded: dump/load by path and file "
                "object, several objects on one stream until EOFError, asdict/fromdict, pickle, copy and equals() under each "
                "ignore option on seeded collections with every subset of reference-sequence fields, non-ASCII schemas, ragged "
                "columns with empty rows, with and without index.")
 C_FUNCS = [("kastore.c", "kastore_read_header"), ("kastore.c", "kastore_read_descriptors"), ("kastore.c", "kastore_read_file"),
-           ("kastore.c", "type_size")]
+           ("kastore.c", "type_size")] + [("tables.c", "tsk_%s_table_equals" % t) for t in (
+               "node", "edge", "site", "mutation", "migration", "individual", "population", "provenance")] + [
+           ("tables.c", "tsk_reference_sequence_equals"), ("tables.c", "tsk_table_collection_equals")]
 BOUNDED = [{"name": "roundtrips", "module": "standins.c05_roundtrip", "timeout": 900}]
-UNVERIFIED = ["kastore write path (pack_items, write_descriptors)", "tables.c column dump/load and *_equals (bounded only)",
+UNVERIFIED = ["kastore write path (pack_items, write_descriptors)", "tables.c column dump/load (bounded only)", "edge tables created with TSK_TABLE_NO_METADATA in *_equals",
               "python dict/pickle paths (bounded only)"]
-ASSUMPTIONS = ["see C10"]
+ASSUMPTIONS = ["see C10",
+               "memcmp over double columns is modelled as equality of the abstract IEEE values: -0.0 / +0.0 and NaN payloads "
+               "other than the unknown-time marker are not distinguished",
+               "the two arguments of *_equals denote distinct objects (t.equals(t) is not a separate scenario)",
+               "location/parents columns of the individual table hold fewer than 2^57 elements"]
